@@ -1316,6 +1316,10 @@ class Interp(object):
     # ordering
     if isinstance(a, Term) or isinstance(b, Term):
       return Term(type(op).__name__.lower(), (a, b))
+    if type(a).__name__ == "NDList" or type(b).__name__ == "NDList":
+      xs = a if type(a).__name__ == "NDList" else [a] * len(b)
+      ys = b if type(b).__name__ == "NDList" else [b] * len(a)
+      return type(a if type(a).__name__ == "NDList" else b)([self.compare(op, x, y) for x, y in zip(xs, ys)])
     if not (is_sym(a) or is_sym(b)):
       import operator
       f = {ast.Lt: operator.lt, ast.LtE: operator.le, ast.Gt: operator.gt,
